@@ -47,6 +47,8 @@ SHAPES = [
     ("cyclic-null", "S: S S | A; A: EMPTY | a;"),
     ("deep-unit-cycle", "S: A; A: B | a; B: S | b;"),
     ("g8", "S: x | B S b | A S b; B: A A; A: EMPTY;"),
+    ("first-empty", "S: A S | b; A: a | EMPTY;"),
+    ("first-empty-2", "X: Y S c; S: A b; A: a | EMPTY; Y: y;"),
 ]
 
 
